@@ -119,29 +119,49 @@ def frame(prog):
     for q, s in sums.items():
         for atom, sites in s.effects.items():
             if atom.startswith('fs_write'): fs.append((q.split(':')[1], atom))
-    expect = {('main', 'fs_write:output_path'), ('generate_report', 'fs_write:output_path'), ('to_html_bulk', 'fs_write:output_path')}
-    out.append(('package/file_writes[only main, generate_report, to_html_bulk open a file for writing, each exactly `output_path`]', set(fs) == expect, sorted(set(fs) ^ expect)))
+    # name-independent: who writes files, and what
+    writers = {}
+    for fq, atom in fs: writers.setdefault(fq, []).append(atom)
+    ok_w = set(writers) == {'main', 'generate_report', 'to_html_bulk'} and all(len(v) == 1 for v in writers.values())
+    for fq, modq in (('generate_report', 'cm_colors.cli.html_report:generate_report'), ('to_html_bulk', 'cm_colors.core.visualiser:to_html_bulk')):
+        try:
+            f2, _ = prog.func(modq)
+            ok_w = ok_w and writers.get(fq, [''])[0].split(':', 1)[1] in [a.arg for a in f2.args.args]          # the path they write is one of their own parameters
+        except KeyError: ok_w = False
+    out.append(('package/file_writes[only main, generate_report, to_html_bulk open a file for writing, one site each; the two report writers write the path they are given]', ok_w, {k: v for k, v in writers.items()}))
+    from . import cli_struct as CS
+    build, det = CS.written_name(prog)
+    nm = "main/output_path[the one file main() writes is <input>.parent / (<input>.stem + '_cm' + <input>.suffix): a sibling, never the input itself] (dataflow + z3 strings)"
+    if build is None: out.append((nm, None, det))
+    elif build == 'INPUT': out.append((nm, False, det))
+    else:
+        stem, suf = z3.String('stem'), z3.String('suffix')
+        try:
+            t = build(z3, stem, suf)
+            so = z3.Solver(); so.set('timeout', 20000)
+            so.add(z3.Or(t != z3.Concat(stem, z3.StringVal('_cm'), suf), t == z3.Concat(stem, suf)))
+            r = so.check()
+            if r == z3.sat:
+                mdl = so.model(); det = dict(det, counterexample={'stem': mdl.eval(stem, True).as_string(), 'suffix': mdl.eval(suf, True).as_string(), 'written': mdl.eval(t, True).as_string()})
+            out.append((nm, True if r == z3.unsat else (False if r == z3.sat else None), det if r != z3.unknown else f'z3: {so.reason_unknown()}'))
+        except ValueError as e:
+            out.append((nm, None, f'written name contains {e} (not stem / suffix / literal)'))
     try:
         fn, m = prog.func(f'{CLI}:main')
-        assigns = {}
-        for n in ast.walk(fn):
-            if isinstance(n, ast.Assign) and len(n.targets) == 1 and isinstance(n.targets[0], ast.Name): assigns.setdefault(n.targets[0].id, []).append(ast.unparse(n.value))
-        ok = assigns.get('output_path') == ['file_path.parent / output_filename'] and assigns.get('output_filename') == ["file_path.stem + '_cm' + file_path.suffix"]
-        out.append(("main/output_path[file_path.parent / (file_path.stem + '_cm' + file_path.suffix), assigned once]", ok, {'output_path': assigns.get('output_path'), 'output_filename': assigns.get('output_filename')}))
         reads = [a for a, sites in sums[f'{CLI}:main'].effects.items() if a.startswith('fs_read')]
-        out.append(('main/reads[only open(file_path) and the directory walk]', set(reads) <= {'fs_read:file_path'}, reads))
-        gr = [ast.unparse(n) for n in ast.walk(fn) if isinstance(n, ast.Call) and ast.unparse(n.func) == 'generate_report']
+        loops = CS.files_loop(fn)
+        lv = ast.unparse(loops[0].target) if len(loops) == 1 else None
+        ropens = [ast.unparse(n.args[0]) for n in ast.walk(fn) if isinstance(n, ast.Call) and ast.unparse(n.func) == 'open' and n.args and not (len(n.args) >= 2 and isinstance(n.args[1], ast.Constant) and any(c in str(n.args[1].value) for c in 'wax+'))]
+        out.append(('main/reads[the only file main() opens for reading is the stylesheet of the current iteration]', lv is not None and set(reads) <= {'fs_read:<local>'} and ropens == [lv], {'effects': reads, 'opened_for_reading': ropens, 'input': lv}))
+        gr = [n for n in ast.walk(fn) if isinstance(n, ast.Call) and ast.unparse(n.func) == 'generate_report']
         fr, _ = prog.func('cm_colors.cli.html_report:generate_report')
-        dflt = [ast.unparse(d) for d in fr.args.defaults]
-        out.append(("main/report_path[generate_report called without a path; its default is the literal 'cm_colors_report.html']", gr == ["generate_report(stats['fixed_details'])"] and dflt == ["'cm_colors_report.html'"], {'calls': gr, 'defaults': dflt}))
+        names = [a.arg for a in fr.args.args]
+        dflt = dict(zip(names[len(names) - len(fr.args.defaults):], [ast.unparse(d) for d in fr.args.defaults]))
+        wparam = writers.get('generate_report', ['fs_write:?'])[0].split(':', 1)[1]
+        no_path = all(len(c.args) <= names.index(wparam) and not any(k.arg == wparam for k in c.keywords) for c in gr) if wparam in names else False
+        out.append(("main/report_path[generate_report is called without a path; the default of its path parameter is the literal 'cm_colors_report.html']", bool(gr) and no_path and dflt.get(wparam) == "'cm_colors_report.html'", {'calls': [ast.unparse(c) for c in gr], 'defaults': dflt}))
     except KeyError as e:
-        out.append(('main/output_path', None, str(e)))
-    # string lemma: the output name never equals the input name
-    stem, suf = z3.String('stem'), z3.String('suffix')
-    so = z3.Solver(); so.set('timeout', 10000)
-    so.add(z3.Concat(stem, z3.StringVal('_cm'), suf) == z3.Concat(stem, suf))
-    r = so.check()
-    out.append(("lemma/output_name_differs[stem + '_cm' + suffix != stem + suffix for all strings] (z3 strings)", True if r == z3.unsat else (False if r == z3.sat else None), str(r)))
+        out.append(('main/reads', None, str(e)))
     return out
 
 
